@@ -66,7 +66,55 @@ def main(tier):
         if late != text:
             cases.append(rel.case("l%d" % n, late))
             meta["l%d" % n] = (m, late)
+    # a stand-alone method on the path of a URL block that has URL-level Tags: it has no parent URL, so it gets the
+    # automatic tag of its first segment and nothing else changes
+    same = {}
+    for n, m in enumerate(docs):
+        if not m["valid"]:
+            continue
+        d = m["doc"]
+        for b in d:
+            if b["t"] == "url" and b["tags"] and b["methods"] and b["path"] and not b["path"][0].startswith("{"):
+                used = {(x["m"]["verb"], tuple(x["m"]["path"])) for x in d if x["t"] == "method"} | \
+                       {(mm["verb"], tuple(ub["path"])) for ub in d if ub["t"] == "url" for mm in ub["methods"]}
+                verb = next((v for v in ("GET", "POST", "PUT", "PATCH", "DELETE") if (v, tuple(b["path"])) not in used), None)
+                if verb is None:
+                    break
+                mm = {"verb": verb, "path": list(b["path"]), "annot": "", "desc": "", "tags": [], "query": "", "reqHeaders": False, "pathdecl": [],
+                      "req": {"form": "none", "b": {"k": "none", "n": "", "props": [], "allOf": []}},
+                      "resps": [{"code": "200", "annot": "", "spec": {"form": "param", "b": {"k": "any", "n": "", "props": [], "allOf": []}}, "headers": False}]}
+                t2 = apidoc.render(d + [{"t": "method", "m": mm}])[0]
+                cases.append(rel.case("sp%d" % n, t2))
+                same["sp%d" % n] = ("t%d" % n, "http %s %s" % (verb, "".join("/" + x for x in b["path"])), "@" + b["path"][0], t2)
+                break
     obs = harness("run", cases)
+    for cid, (bid, iid, auto, t2) in same.items():
+        a, o = obs[bid], obs[cid]
+        chk.evaluations += 1
+        chk.traces += 1
+        chk.nontrivial.add(t2)
+        if a["outcome"] != "ok":
+            continue
+        bad = None
+        if o["outcome"] != "ok":
+            bad = "a stand-alone method on the path of a URL block is not accepted: %s" % rel.describe(o)
+        else:
+            got = apidoc.project(o["json"])[0]
+            base = apidoc.project(a["json"])[0]
+            mine = [i for i in got["interactions"] if i["id"] == iid]
+            if not mine:
+                bad = "interaction %s is missing" % iid
+            elif mine[0]["tags"] != [auto]:
+                bad = "tags of the stand-alone %s are %s, the automatic tag of its first segment is %s" % (iid, mine[0]["tags"], auto)
+            else:
+                before = {i["id"]: i["tags"] for i in base["interactions"]}
+                after = {i["id"]: i["tags"] for i in got["interactions"] if i["id"] != iid}
+                if before != after:
+                    k = next(k for k in before if before[k] != after.get(k))
+                    bad = "adding the stand-alone %s changed the tags of %s: %s -> %s" % (iid, k, before[k], after.get(k))
+        if bad:
+            sig = {"level": "end-to-end", "what": "same path as a URL block"}
+            chk.violation(bad + " | document:\n" + t2[:1200], {"kind": "tags_same_path", "file": t2, "observed": o, "signature": sig}, sig)
     for cid, (m, text) in meta.items():
         o = obs[cid]
         chk.evaluations += 1
